@@ -131,7 +131,7 @@ class ClientDriver(ReorgDriver):
                 # "the index was at that height": flushed, nothing of a flush still in flight
                 self.mp_list_index_ok = bool(
                     srv is not None and srv.db is not None and srv.db.state is not None
-                    and srv.db.state.height == d.height
+                    and srv.db.state.height == d.height and srv.db.state.tip == d.tip.hash
                     and not any(x.tag.endswith(('flush_dbs', 'advance_block', 'backup_block'))
                                 for x in w.sim.workers))
             return orig_rpc(method, params)
@@ -232,7 +232,7 @@ class ClientDriver(ReorgDriver):
                              f'the touched set ({len(touched)} touched)', missing[:1])
         self.mp_prev_view = view
         synced = (self.mp_list_version == d.version and d.height == height
-                  and srv.db.state.height == height and self.mp_list_index_ok)
+                  and srv.db.state.height == height and srv.db.state.tip == d.tip.hash and self.mp_list_index_ok)
         if not synced:
             self.probe('refresh.unsynchronised')
             return
